@@ -2,7 +2,7 @@
     worker returns for a chunk is what the one-core run over that chunk writes to destination [d],
     the statistics of a chunk are its record count. *)
 From Coq Require Import ZArith List Bool Arith Lia.
-From CV Require Import Model.Base Model.Pipeline Model.Runner Proofs.PipelineProofs Proofs.RunnerSafety.
+From CV Require Import Model.Base Model.Pipeline Model.Runner Proofs.PipelineProofs Proofs.RunnerSafety Proofs.RunnerLive Proofs.RunnerStats.
 Import ListNotations.
 
 Section RP.
@@ -28,5 +28,39 @@ Section RP.
   Proof.
     intros Hr. destruct (written_is_prefix _ _ _ _ _ _ _ _ _ _ _ _ s Hr) as [Hw Hc]. split; [|exact Hc].
     rewrite Hw, files_chunked. reflexivity.
+  Qed.
+
+  Lemma gi_map {X Y} (h : X -> Y) (z : Y) : forall (l : list X) (k : nat),
+    map (fun i => match nth_error l (i - k)%nat with Some c => h c | None => z end) (seq k (length l)) = map h l.
+  Proof.
+    induction l as [|x t IH]; intros k; [reflexivity|]. cbn [length seq map]. rewrite Nat.sub_diag. cbn [nth_error]. f_equal.
+    rewrite <- (IH (Datatypes.S k)). apply map_ext_in. intros i Hi. apply in_seq in Hi.
+    replace (i - k)%nat with (Datatypes.S (i - Datatypes.S k))%nat by lia. reflexivity.
+  Qed.
+
+  Lemma fold_cstat : forall l : list (list read),
+    fold_right Z.add 0%Z (map cstat l) = zsum_map (fun c => rep_n (Pipeline.run order forder o c)) l.
+  Proof. induction l as [|c t IH]; [reflexivity|]. cbn [map fold_right]. rewrite zsum_map_cons, IH. reflexivity. Qed.
+
+  Lemma total_stats_counts : total_stats (list read) Z cstat 0%Z Z.add chunks = rep_n (Pipeline.run order forder o (concat chunks)).
+  Proof.
+    unfold total_stats, gi, ssum. rewrite counts_chunked.
+    assert (E : map (fun i => match nth_error chunks i with Some c => cstat c | None => 0%Z end) (seq 0 (length chunks)) = map cstat chunks).
+    { rewrite <- (gi_map cstat 0%Z chunks 0). apply map_ext. intros i. rewrite Nat.sub_0_r. reflexivity. }
+    rewrite E. apply fold_cstat.
+  Qed.
+
+  (** any number of workers, any chunking, any schedule: a run that finishes has written to
+      destination [d] exactly what one core writes there for the whole input, and the merged record
+      count is the one-core count *)
+  Theorem multicore_final s : (0 < W)%nat ->
+    reachable (list read) (list read) Z block cstat 0%Z Z.add chunks W bad rfail ffail s -> finished_ok s = true ->
+    concat (written s) = records_of d (rep_files (Pipeline.run order forder o (concat chunks))) /\
+    macc s = rep_n (Pipeline.run order forder o (concat chunks)).
+  Proof.
+    intros HW Hr Hf.
+    destruct (finished_stats_total (list read) (list read) Z block cstat 0%Z Z.add chunks W bad rfail ffail s HW
+                ltac:(intros; lia) ltac:(intros; lia) ltac:(intros; lia) Hr Hf) as [Hw Hm].
+    split; [rewrite Hw, files_chunked; reflexivity | rewrite Hm; apply total_stats_counts].
   Qed.
 End RP.
